@@ -14,3 +14,5 @@ import BU.Properties.C15_GenHeader
 #print axioms C15GenHeader.gen_header_hash
 #print axioms C15GenHeader.gen_header_roundtrip
 #print axioms C15GenHeader.gen_header_rejects
+#print axioms C15GenHeader.gen_header_target
+#print axioms C15GenHeader.gen_header_target_rejects
